@@ -5,7 +5,7 @@ git -C $wt checkout -q -- . && git -C $wt checkout -q --detach main 2>/dev/null
 if ! git -C $wt apply $patch; then echo "RESULT $patch APPLY-FAILED"; exit 0; fi
 ( cd $wt && GOFLAGS=-mod=mod GOPROXY=off go build ./... ) || { echo "RESULT $patch BUILD-FAILED"; git -C $wt checkout -q -- .; exit 0; }
 for p in "$@"; do
-  out=$(VERIF_REPO=$wt VERIF_EVIDENCE_DIR=/tmp/mut/evidence VERIF_REPLAY_DIR=/tmp/mut/replays/$(basename $(dirname $patch))-$(basename $wt) /verif/bin/gosmt check --property $p --tier ${TIER:-quick} 2>&1)
+  out=$(VERIF_REPO=$wt VERIF_EVIDENCE_DIR=/tmp/mut/evidence VERIF_REPLAY_DIR=/tmp/mut/replays/$(basename $(dirname $patch))-$(basename $wt) ${GOSMT:-/verif/bin/gosmt} check --property $p --tier ${TIER:-quick} 2>&1)
   code=$?
   echo "RESULT $patch prop=$p exit=$code $(echo "$out" | grep -c '^VIOLATION') violations; $(echo "$out" | grep '^  violated' | sed 's/ at .*//' | sort -u | head -3 | tr '\n' ';') $(echo "$out" | grep '^INCONCLUSIVE' | head -2 | cut -c1-200 | tr '\n' ';')"
 done
